@@ -75,9 +75,9 @@ func (f *fakeChannelManager) StopReadCollection(ctx context.Context, info *pb.Co
 func (f *fakeChannelManager) AddPartition(ctx context.Context, db *coremodel.DatabaseInfo, c *pb.CollectionInfo, p *pb.PartitionInfo) error {
 	return nil
 }
-func (f *fakeChannelManager) GetChannelChan() <-chan string                        { return f.chanCh }
-func (f *fakeChannelManager) GetMsgChan(p string) <-chan *coreapi.ReplicateMsg     { return nil }
-func (f *fakeChannelManager) GetEventChan() <-chan *coreapi.ReplicateAPIEvent      { return f.evCh }
+func (f *fakeChannelManager) GetChannelChan() <-chan string                    { return f.chanCh }
+func (f *fakeChannelManager) GetMsgChan(p string) <-chan *coreapi.ReplicateMsg { return nil }
+func (f *fakeChannelManager) GetEventChan() <-chan *coreapi.ReplicateAPIEvent  { return f.evCh }
 func (f *fakeChannelManager) GetChannelLatestMsgID(ctx context.Context, c string) ([]byte, error) {
 	return nil, nil
 }
@@ -108,7 +108,9 @@ func (f *fakeMetaOp) GetAllCollection(ctx context.Context, filter coreapi.Collec
 func (f *fakeMetaOp) GetAllPartition(ctx context.Context, filter coreapi.PartitionFilter) ([]*pb.PartitionInfo, error) {
 	return nil, nil
 }
-func (f *fakeMetaOp) GetAllDroppedObj() map[string]map[string]uint64              { return map[string]map[string]uint64{} }
+func (f *fakeMetaOp) GetAllDroppedObj() map[string]map[string]uint64 {
+	return map[string]map[string]uint64{}
+}
 func (f *fakeMetaOp) GetCollectionNameByID(ctx context.Context, id int64) string { return "" }
 
 type fakeTarget struct{ coreapi.DefaultTargetAPI }
@@ -146,8 +148,10 @@ func (f *fakeDispatcher) Register(ctx context.Context, sc *msgdispatcher.StreamC
 	f.rec.Add("mq.register %s %s", f.target, sc.VChannel)
 	return make(chan *msgdispatcher.MsgPack), nil
 }
-func (f *fakeDispatcher) Deregister(vchannel string) { f.rec.Add("mq.deregister %s %s", f.target, vchannel) }
-func (f *fakeDispatcher) Close()                     {}
+func (f *fakeDispatcher) Deregister(vchannel string) {
+	f.rec.Add("mq.deregister %s %s", f.target, vchannel)
+}
+func (f *fakeDispatcher) Close() {}
 
 // ------------------------------------------------------------------ fake Milvus (gRPC Connect only)
 type fakeMilvus struct {
